@@ -2,6 +2,7 @@ package main
 
 import (
 	"crypto/sha256"
+	"math/big"
 	"fmt"
 
 	"github.com/decred/dcrd/crypto/ripemd160"
@@ -34,8 +35,7 @@ func (w *Worker) hashUF(name string, in []*Term, outBytes int, real func([]byte)
 		for i := range out {
 			out[i] = BVu(uint64(d[i]), 8)
 		}
-		// concrete applications also take part in injectivity constraints
-		w.recordHash(name, in, out)
+		digestInputs.Store(name+":"+new(big.Int).SetBytes(d[:outBytes]).Text(16), bs)
 		return out
 	}
 	var arg *Term
@@ -56,7 +56,6 @@ func (w *Worker) hashUF(name string, in []*Term, outBytes int, real func([]byte)
 		hi := outBytes*8 - 1 - 8*i
 		out[i] = Extract(res, hi, hi-7)
 	}
-	w.recordHash(name, in, out)
 	return out
 }
 
